@@ -4,7 +4,8 @@
 From Coq Require Import List ZArith Bool.
 From WebpGen Require Tables Consts.
 From Webp Require Import Vp8.Vp8Bool Vp8.Vp8Tables Vp8.Vp8Syntax Vp8.Vp8Kernels Vp8.Vp8KernelProofs Vp8.Vp8Upsample
-  Vp8.Vp8BoolAbs Vp8.Vp8BoolEnc Vp8.Vp8SyntaxRT Vp8.Vp8TokenRT Vp8.Vp8ModeRT Vp8.Vp8Recon Vp8.Vp8Filter Vp8.Vp8Spec Vp8.Vp8FrameRT Vp8.Vp8RowOrder Vp8.Vp8GoReader Vp8.Vp8InlineCoeffs.
+  Vp8.Vp8BoolAbs Vp8.Vp8BoolEnc Vp8.Vp8SyntaxRT Vp8.Vp8TokenRT Vp8.Vp8ModeRT Vp8.Vp8Recon Vp8.Vp8Filter Vp8.Vp8Spec Vp8.Vp8FrameRT Vp8.Vp8RowOrder Vp8.Vp8GoReader Vp8.Vp8InlineCoeffs Vp8.Vp8InlineTree.
+From Webp Require Riff.PrefixBitio.
 From Webp Require Import Base.Res.
 Import ListNotations.
 Open Scope Z_scope.
@@ -128,6 +129,14 @@ Theorem C04_vp8_emit_decode : forall qk s bs, wf_frame_syn qk s -> emit_key_fram
 Proof. exact vp8_emit_decode. Qed.
 Print Assumptions C04_vp8_emit_decode.
 
+(** The emitted frame never makes the decoder read a bool from beyond the end of a partition
+    (BoolWriter.Finish pads at least 8 bits beyond the last symbol's interval): dc_past_end is false,
+    so "rejected because it needs bits beyond a partition" never applies to emitter output. *)
+Theorem C04_emit_no_past_end : forall qk s bs, wf_frame_syn qk s -> emit_key_frame qk s = Ok bs ->
+  exists r, decode_gen qk bs = Ok r /\ dc_past_end r = false.
+Proof. exact emit_no_past_end. Qed.
+Print Assumptions C04_emit_no_past_end.
+
 (** Filtering row by row right after each macroblock row is reconstructed (from the unfiltered top
     samples kept aside), as parseFrame does, = filtering after the whole frame is reconstructed. *)
 Theorem C04_row_filter_order_eq : forall qk h simple rows cols above,
@@ -147,19 +156,36 @@ Print Assumptions C04_go_reader_bit_refines.
 
 (** getCoeffsInline as the code runs it (hoisted reader state, "if brB < 0 { brLoad }" before every
     inlined read, unrolled value tree, kCat3456 loop with its terminator, prefetched bands[n+1]) =
-    the specification's token reader on the RFC decoder: same dequantised block, same end-of-block
-    position, readers again at the same stream position - for every probability table (bytes), block
-    type, start position, context, and every pair of reader states at the same position with at
-    least 357 further reads of look-ahead (16 + 7*357 bits, about 315 bytes; hence _partial: reader
-    states closer to the end of a partition are covered by the coef/coefs kernel cases and by whole
-    frames only). *)
-Theorem C04_inline_coeffs_eq_partial : forall tp first ctx dqdc dqac g d, tp_ok tp -> 0 <= first < 16 ->
-  both 357 g d ->
-  exists g' d', go_get_coeffs tp first ctx dqdc dqac g = (fst (fst (decode_block tp first ctx dqdc dqac d)),
-                                                          snd (fst (decode_block tp first ctx dqdc dqac d)), g') /\
-    snd (decode_block tp first ctx dqdc dqac d) = d' /\ both 0 g' d'.
-Proof. exact inline_coeffs_eq. Qed.
-Print Assumptions C04_inline_coeffs_eq_partial.
+    the specification's token reader on the RFC decoder, for every probability table (bytes), block
+    type, start position, context and EVERY pair of reader states at the same position of the same
+    data ([bothp]: the Go reader and the RFC decoder both refine the exact-integer decoder over the
+    data followed by zeros) - also within the last bytes of a partition, where the Go reader loads
+    byte by byte and then shifts in zeros: if the Go reader has not raised its end-of-input flag when
+    the block is done (otherwise decodeMB rejects the frame with errPrematureEOF), the specification
+    returns the same dequantised block and end-of-block position and the readers are again at the
+    same position.  No look-ahead condition. *)
+Theorem C04_inline_coeffs_eq : forall tp first ctx dqdc dqac g d, tp_ok tp -> 0 <= first < 16 ->
+  bothp true g d ->
+  gr_eof (snd (go_get_coeffs tp first ctx dqdc dqac g)) = false ->
+  exists d', Vp8Syntax.decode_block tp first ctx dqdc dqac d =
+             (fst (fst (go_get_coeffs tp first ctx dqdc dqac g)),
+              snd (fst (go_get_coeffs tp first ctx dqdc dqac g)), d') /\
+             bothp true (snd (go_get_coeffs tp first ctx dqdc dqac g)) d'.
+Proof. exact Vp8InlineTree.inline_coeffs_eq. Qed.
+Print Assumptions C04_inline_coeffs_eq.
+
+(** the relation holds between the freshly created readers of a partition of at least two bytes
+    whose first byte is below 255 (every encoder output: the coded value is below the initial
+    range), and once raised the Go reader's flag stays raised until decodeMB tests it *)
+Theorem C04_inline_readers_start : forall a b rest, is_byte a -> is_byte b -> Forall is_byte rest -> a < 255 ->
+  bothp true (PrefixBitio.gr_new (a :: b :: rest)) (bd_init (a :: b :: rest)).
+Proof. exact bothp_new. Qed.
+Print Assumptions C04_inline_readers_start.
+
+Theorem C04_inline_eof_sticky : forall tp first ctx dqdc dqac g,
+  gr_eof g = true -> gr_eof (snd (go_get_coeffs tp first ctx dqdc dqac g)) = true.
+Proof. exact go_get_coeffs_eof_mono. Qed.
+Print Assumptions C04_inline_eof_sticky.
 
 (** ** Kernel refinements: the Go decoder's short-cuts against the full definitions *)
 
